@@ -434,10 +434,16 @@ impl<'a> MediaPlaylist<'a> {
             start: self.start,
             has_end_list: self.has_end_list,
             segments: {
-                self.segments
-                    .into_iter()
-                    .map(|(_, s)| s.into_owned())
-                    .collect()
+                // keep every segment in its slot (and the capacity, which
+                // `StableVec` compares), so that the result equals `self`
+                let mut segments = StableVec::with_capacity(self.segments.capacity());
+
+                for (index, segment) in self.segments {
+                    segments.reserve_for(index);
+                    segments.insert(index, segment.into_owned());
+                }
+
+                segments
             },
             allowable_excess_duration: self.allowable_excess_duration,
             unknown: {
